@@ -80,6 +80,13 @@ def _findings_through_new_helpers(repo, findings):
             for t in targets:
                 if t.qualname in new and not t.qualname.endswith("__aslist") and t.qualname not in followed:
                     hit = t.qualname
+        # reads of a property that is not in the pinned inventory (an un-followed helper in attribute clothing)
+        if hit is None:
+            new_props = {fn.name: fn.qualname for fn in repo.functions.values() if fn.qualname in new and fn.is_property and fn.qualname not in followed}
+            if new_props:
+                for a in _ast.walk(owner.node):
+                    if isinstance(a, _ast.Attribute) and isinstance(a.ctx, _ast.Load) and a.attr in new_props:
+                        hit = new_props[a.attr]
         # nested functions of the owner that are new closures
         if hit is None:
             for nm, nf in getattr(owner, "nested", {}).items():
